@@ -232,7 +232,7 @@ ZDD_ASSUME = [
     "R10/R11/R12: std iterator desugarings (slice::Iter, Map, collect, Rev visit every element once in (reverse) order)",
     "R13: slice::sort_unstable / Vec::dedup / slice::to_vec (at u32) have their documented contracts (assumed)",
     "termination of ArenaIterator::next and ZddIterator::next is NOT proved; iteration completeness ('each member exactly once') is NOT proved; "
-    "card(r) is the structural count (the lemma card == number of member sets is not written)",
+    "count returns card(r), the structural count; lemma_card_is_cardinality proves card(r) == |{s : mem(r, s)}| (finite set of member sets)",
     "Not under any verifier: SharedArena lock wrappers, Zdd::to_sets / the Iterator trait impls (only the inherent `next` bodies), debug.rs",
 ]
 
